@@ -165,6 +165,17 @@ def restructure_ifs(fn, how):
 
         def visit_If(self, node):
             self.generic_visit(node)
+            if how == "splitand" and not node.orelse and isinstance(node.test, ast.BoolOp) and isinstance(node.test.op, ast.And):
+                inner = node.body
+                for cond in reversed(node.test.values[1:]):
+                    inner = [ast.If(test=cond, body=inner, orelse=[])]
+                node.test = node.test.values[0]
+                node.body = inner
+                return node
+            if how == "mergeand" and not node.orelse and len(node.body) == 1 and isinstance(node.body[0], ast.If) and not node.body[0].orelse:
+                node.test = ast.BoolOp(op=ast.And(), values=[node.test, node.body[0].test])
+                node.body = node.body[0].body
+                return node
             if how == "invert" and node.orelse:
                 node.test = ast.UnaryOp(op=ast.Not(), operand=node.test)
                 node.body, node.orelse = node.orelse, node.body
@@ -741,6 +752,8 @@ def sweep(prop, A, jobs=16):
                     chain(rename_locals(FHS), rename_locals(CLI))))
     generic.append((prop, None, "twin: every `if A(terminal) else B` rewritten as a guard clause followed by B",
                     chain(restructure_ifs(FHS, "guard"), restructure_ifs(CLI, "guard"))))
+    generic.append((prop, None, "twin: every `if a and b: X` (no else) split into nested ifs", chain(restructure_ifs(FHS, "splitand"), restructure_ifs(CLI, "splitand"))))
+    generic.append((prop, None, "twin: every `if a: if b: X` (no elses) merged into `if a and b: X`", chain(restructure_ifs(FHS, "mergeand"), restructure_ifs(CLI, "mergeand"))))
     generic.append((prop, None, "twin: every `if c: A else: B` rewritten as `if not c: B else: A`",
                     chain(restructure_ifs(FHS, "invert"), restructure_ifs(CLI, "invert"))))
     for how, what in (("swapeq", "operands of every == / != swapped"), ("keywords", "positional arguments of every self.method(...) call passed by keyword"),
